@@ -1,5 +1,6 @@
 import Gql.Proofs.LexerBlock
 import Gql.Proofs.BlockForced2
+import Gql.Proofs.C09Pairs
 /-!
 C08, converse direction (`parse_wf`), lexer inversion for STRING / BLOCK_STRING tokens: every code
 point of the value is a Unicode scalar value, or a surrogate that stands verbatim in the source text
